@@ -124,8 +124,15 @@ def selection_array(ctx) -> None:
         return
     R, C, W = f.params[0], f.params[1], f.params[2]
     w = f.where()
-    grids = [x for x in own_walk(f.node) if isinstance(x, ast.Call) and call_fname(x) in ("zeros", "full", "empty", "zeros_like") and x.args and isinstance(x.args[0], ast.Tuple)]
-    ok_grid = len(grids) == 1 and [getattr(e, "id", None) for e in grids[0].args[0].elts] == [R, C]
+    grids = [x for x in own_walk(f.node) if isinstance(x, ast.Call) and call_fname(x) in ("zeros", "full", "empty", "zeros_like") and x.args]
+    shapes = []
+    for x in grids:
+        try:
+            sh = fv.res.resolve(x.args[0], fv.node_of(x))  # the shape may be bound to a local first
+        except Exception:
+            sh = x.args[0]
+        shapes.append(sh)
+    ok_grid = len(grids) == 1 and isinstance(shapes[0], ast.Tuple) and [getattr(strip_norm(e), "id", None) for e in shapes[0].elts] == [R, C]
     ctx.rep.check(ok_grid, rule, f"{f.qualname}/grid", "the selection grid has shape (rows, columns)",
                   f"the selection grid is `{show(grids[0])[:50] if grids else 'not found'}`; expected zeros((rows, columns))", where=w)
     maps = [x for x in own_walk(f.node) if isinstance(x, ast.Call) and call_fname(x) in ("make_well_index_dict", "make_well_array")]
